@@ -48,7 +48,11 @@ Second-round changes (M21-M40) were written by fresh sub-agents that were told w
 round had already used for that property. Of the 20 second-round changes 13 were caught at once by
 the check of their own property, 1 only by checks of neighbouring properties (M24), and 6 were
 missed by their own property's check at first (M19/C07 in round one, M21, M27, M38, M39, M40) and
-led to the strengthenings above; all 40 are caught now.
+led to the strengthenings above. Third round (M41-M46, the six properties whose checks had needed
+strengthening): 4 caught at once by their own check (M41, M42, M44, M45); M43 (C18: a panic only
+under preserve_order when toml::Table is deserialized from a serde stream with an absurd size hint)
+and M46 (C17: toml_edit::ser::to_string_pretty hides empty tables) were missed and led to the `hint`
+battery items of C18 and the `esame` oracle of C17. All 46 are caught now.
 """
 p = os.path.join(ROOT, "DESIGN.md")
 s = open(p).read()
